@@ -228,6 +228,53 @@ Fixpoint sig_from_py (v : pyval) : res str :=
       end
   | PDict [] => Ok sig_asv
   | PDict ((k0, v0) :: r) =>
+      (* vtype = type of the first value, and (since D61) its signature; k leaks
+         from the loop: the key of the LAST pair *)
+      let same := forallb (fun kv => subclass (class_of (snd kv)) (class_of v0)) r in
+      let sv := sig_from_py v0 in
+      (fix last (sk : res str) (r : list (pyval * pyval)) : res str :=
+         match r with
+         | [] =>
+             match sk with
+             | Err e => Err e
+             | Ok ks =>
+                 if same then match sv with Ok vs => Ok (97 :: 123 :: ks ++ vs ++ [125]) | Err e => Err e end
+                 else Ok (97 :: 123 :: ks ++ [118; 125])
+             end
+         | (k', _) :: r' => last (sig_from_py k') r'
+         end) (sig_from_py k0) r
+  | PObj _ | PNone => Err EMarshal
+  end.
+
+(* sigFromPy before the repair of D61: the value type of a dict came from the LAST pair *)
+Fixpoint sig_from_py_legacy (v : pyval) : res str :=
+  match v with
+  | PWrap code _ => Ok [code]                       (* the wrapper's dbusSignature *)
+  | PBool _ => Ok [98]
+  | PInt _ => Ok [105]
+  | PFloat _ => Ok [100]
+  | PStr _ => Ok [115]
+  | PBytes _ => Ok [97; 121]
+  | PList [] => Ok sig_av
+  | PList (x :: r) =>
+      if forallb (fun y => subclass (class_of y) (class_of x)) r
+      then match sig_from_py_legacy x with Ok s => Ok (c_a :: s) | Err e => Err e end
+      else Ok sig_av
+  | PTuple l =>
+      match (fix go (l : list pyval) : res str :=
+               match l with
+               | [] => Ok []
+               | x :: r => match sig_from_py_legacy x, go r with
+                           | Ok a, Ok b => Ok (a ++ b)
+                           | Err e, _ => Err e
+                           | _, Err e => Err e
+                           end
+               end) l with
+      | Ok s => Ok (40 :: s ++ [41])
+      | Err e => Err e
+      end
+  | PDict [] => Ok sig_asv
+  | PDict ((k0, v0) :: r) =>
       (* vtype = type of the first value; k, v leak from the loop: the LAST pair *)
       let same := forallb (fun kv => subclass (class_of (snd kv)) (class_of v0)) r in
       (fix last (k v : pyval) (sk sv : res str) (r : list (pyval * pyval)) : res str :=
@@ -239,8 +286,8 @@ Fixpoint sig_from_py (v : pyval) : res str :=
                  if same then match sv with Ok vs => Ok (97 :: 123 :: ks ++ vs ++ [125]) | Err e => Err e end
                  else Ok (97 :: 123 :: ks ++ [118; 125])
              end
-         | (k', v') :: r' => last k' v' (sig_from_py k') (sig_from_py v') r'
-         end) k0 v0 (sig_from_py k0) (sig_from_py v0) r
+         | (k', v') :: r' => last k' v' (sig_from_py_legacy k') (sig_from_py_legacy v') r'
+         end) k0 v0 (sig_from_py_legacy k0) (sig_from_py_legacy v0) r
   | PObj _ | PNone => Err EMarshal
   end.
 
@@ -426,6 +473,61 @@ Fixpoint m_one (fuel : nat) (ct : str) (v : pyval) (off : N) (le : bool) (fds : 
 
 Definition m_marshal (fuel : nat) (sig : str) (vals : pyval) (off : N) (le : bool) (fds : fdst) : mres :=
   marshal_with (m_one fuel) sig vals off le fds.
+
+(* marshal() before the repair of D61: marshal_variant infers with the legacy sigFromPy *)
+Fixpoint m_one_legacy (fuel : nat) (ct : str) (v : pyval) (off : N) (le : bool) (fds : fdst) : mres :=
+  match fuel with
+  | O => Err EFuel
+  | S f =>
+      match ct with
+      | [] => Err EOther
+      | tcode :: tsig =>
+          if tcode =? 121 then m_int 1 false v le fds                       (* y *)
+          else if tcode =? 98 then                                          (* b *)
+            do b <- pack_int 4 false le (if truthy v then 1 else 0)%Z; Ok (4, b, fds)
+          else if tcode =? 110 then m_int 2 true v le fds                   (* n *)
+          else if tcode =? 113 then m_int 2 false v le fds                  (* q *)
+          else if tcode =? 105 then m_int 4 true v le fds                   (* i *)
+          else if tcode =? 117 then m_int 4 false v le fds                  (* u *)
+          else if tcode =? 120 then m_int 8 true v le fds                   (* x *)
+          else if tcode =? 116 then m_int 8 false v le fds                  (* t *)
+          else if tcode =? 100 then m_double v le fds                       (* d *)
+          else if tcode =? 115 then m_string v le fds                       (* s *)
+          else if tcode =? 111 then m_object_path v le fds                  (* o *)
+          else if tcode =? 103 then m_signature v le fds                    (* g *)
+          else if tcode =? 104 then m_unix_fd v le fds                      (* h *)
+          else if tcode =? 97 then                                          (* a: marshal_array *)
+            match tsig with
+            | [] => Err EIndex                                              (* tsig[0] *)
+            | ecode :: _ =>
+                let off1 := off + 4 in
+                do ip <- pad_for ecode off1;
+                do items <- array_items v;
+                do r <- arr_loop (m_one_legacy f) tsig ecode items (off1 + ip) 0 le fds;
+                let '(_, dlen, b, fds1) := r in
+                do lenb <- pack_int 4 false le (Z.of_N dlen);
+                Ok (4 + ip + dlen, lenb ++ zeros ip ++ b, fds1)
+            end
+          else if (tcode =? 40) || (tcode =? 123) then                      (* ( { : marshal_struct *)
+            marshal_with (m_one_legacy f) (strip_ends ct) v off le fds
+          else if tcode =? 118 then                                         (* v: marshal_variant *)
+            do vsig <- sig_from_py_legacy v;
+            do r1 <- m_signature (PStr vsig) le fds;
+            let '(n1, b1, _) := r1 in
+            match vsig with
+            | [] => Err EIndex
+            | vcode :: _ =>
+                do p <- pad_for vcode (off + n1);
+                do r2 <- marshal_with (m_one_legacy f) vsig (PList [v]) (off + n1 + p) le None;
+                let '(n2, b2, _) := r2 in
+                Ok (n1 + p + n2, b1 ++ zeros p ++ b2, fds)
+            end
+          else Err EKey
+      end
+  end.
+
+Definition m_marshal_legacy (fuel : nat) (sig : str) (vals : pyval) (off : N) (le : bool) (fds : fdst) : mres :=
+  marshal_with (m_one_legacy fuel) sig vals off le fds.
 
 (* ---------------------------------------------------------------------------
    unmarshalling                                                                 *)
